@@ -72,4 +72,6 @@ Definition f80_decode (bits : Z) : num :=
   else Fin s (inject_Z m * pow2Q ((if Z.eqb e 0 then 1 else e) - 16383 - 63))%Q.
 
 (* native integers: width w, signed or not, given as a w-bit pattern *)
-Definition int_decode (signed : bool) (w bits : Z) : Z := if signed then sgn w bits else wrap w bits.
+(* width code 65 = the 64-bit type `long` / `unsigned long` (as opposed to `long long`) *)
+Definition int_decode (signed : bool) (w bits : Z) : Z :=
+  let w := if Z.eqb w 65 then 64 else w in if signed then sgn w bits else wrap w bits.
